@@ -476,6 +476,31 @@ func (p *Prog) constBufLen(fn *ssa.Function, buf ssa.Value) (int64, bool) {
 	if k, ok := constLenOf(buf); ok {
 		return k, true
 	}
+	// a slice parameter of an unexported function: the same constant length at every call site
+	if prm, isP := buf.(*ssa.Parameter); isP && !p.Exported(fn) && fn.Parent() == nil {
+		idx := -1
+		for i, q := range fn.Params {
+			if q == prm {
+				idx = i
+			}
+		}
+		sites := p.CG().sites[fn]
+		if idx < 0 || len(sites) == 0 {
+			return 0, false
+		}
+		var val int64 = -1
+		for _, site := range sites {
+			if site.Common().IsInvoke() || idx >= len(site.Common().Args) || site.Parent() == fn {
+				return 0, false
+			}
+			k, ok := p.constBufLen(site.Parent(), site.Common().Args[idx])
+			if !ok || (val >= 0 && k != val) {
+				return 0, false
+			}
+			val = k
+		}
+		return val, val >= 0
+	}
 	u, ok := buf.(*ssa.UnOp)
 	if !ok {
 		return 0, false
@@ -530,11 +555,62 @@ func ruleIOTee(p *Prog, r *Report) {
 	}
 	name := p.Name(fn)
 	sites := p.readSites([]*ssa.Function{fn})
-	if len(sites) != 1 {
+	// dataGuard: blk is reached only when a byte was read
+	var dataGuard func(blk *ssa.BasicBlock) bool
+	var rs readSite
+	switch {
+	case len(sites) == 1:
+		rs = sites[0]
+		dataGuard = func(blk *ssa.BasicBlock) bool { return nPositiveGuard(rs.n, blk) }
+	case len(sites) == 0:
+		// the Read may live in a helper shared with the plain byte reader: a module function that reads once into the buffer it is
+		// given and returns a nil error only under n > 0
+		var hc *ssa.Call
+		var hsite readSite
+		eachInstr(fn, func(b *ssa.BasicBlock, in ssa.Instruction) {
+			c, ok := in.(*ssa.Call)
+			if !ok {
+				return
+			}
+			h := staticCallee(&c.Call)
+			if h == nil || !p.InModule(h) || len(h.Blocks) == 0 {
+				return
+			}
+			hs := p.readSites([]*ssa.Function{h})
+			if len(hs) != 1 {
+				return
+			}
+			bp, isP := hs[0].buf.(*ssa.Parameter)
+			if !isP {
+				return
+			}
+			okRet := true
+			eachInstr(h, func(b2 *ssa.BasicBlock, i2 ssa.Instruction) {
+				if ret, ok := i2.(*ssa.Return); ok && len(ret.Results) == 2 && isNilConst(ret.Results[1]) && !nPositiveGuard(hs[0].n, b2) {
+					okRet = false
+				}
+			})
+			if !okRet {
+				return
+			}
+			for i, q := range h.Params {
+				if q == bp && i < len(c.Call.Args) {
+					hc = c
+					hsite = readSite{fn: fn, call: c, buf: c.Call.Args[i]}
+				}
+			}
+		})
+		if hc == nil {
+			r.Unknown(rule, name, "single Read", p.Pos(fn.Pos()), "expected one Read call (in the adaptor or in a helper it calls), found none")
+			return
+		}
+		rs = hsite
+		herr := errResult(hc)
+		dataGuard = func(blk *ssa.BasicBlock) bool { return herr != nil && errCheckedBefore(herr, blk) }
+	default:
 		r.Unknown(rule, name, "single Read", p.Pos(fn.Pos()), fmt.Sprintf("expected one Read call, found %d", len(sites)))
 		return
 	}
-	rs := sites[0]
 	// the Write of the byte
 	var writes []ssa.CallInstruction
 	eachInstr(fn, func(b *ssa.BasicBlock, in ssa.Instruction) {
@@ -553,7 +629,7 @@ func ruleIOTee(p *Prog, r *Report) {
 		if k, isK := constInt(sl.High); isK && k == 1 {
 			okArg = true
 		}
-		if sl.High == rs.n {
+		if rs.n != nil && sl.High == rs.n {
 			okArg = true
 		}
 	}
@@ -562,15 +638,15 @@ func ruleIOTee(p *Prog, r *Report) {
 	} else {
 		r.Bad(rule, name, "Write operand is the byte just read", p.Pos(w.Pos()), "the sink does not receive exactly the byte that is returned")
 	}
-	if nPositiveGuard(rs.n, w.Block()) {
-		r.OK(rule, name, "Write only when a byte was read", p.Pos(w.Pos()), "dominated by n > 0")
+	if dataGuard(w.Block()) {
+		r.OK(rule, name, "Write only when a byte was read", p.Pos(w.Pos()), "dominated by n > 0 (or by the nil error of the helper that returns data only under n > 0)")
 	} else {
 		r.Bad(rule, name, "Write only when a byte was read", p.Pos(w.Pos()), "a stale byte may be copied to the raw capture")
 	}
 	// every return on the data path passes through the Write
 	bad := ""
 	eachInstr(fn, func(b *ssa.BasicBlock, in ssa.Instruction) {
-		if ret, ok := in.(*ssa.Return); ok && nPositiveGuard(rs.n, b) {
+		if ret, ok := in.(*ssa.Return); ok && dataGuard(b) {
 			wi := w.(ssa.Instruction)
 			if !(wi.Block() == b && indexIn(wi) < indexIn(ret)) && !(wi.Block() != b && wi.Block().Dominates(b)) {
 				bad = p.Pos(ret.Pos())
@@ -939,6 +1015,64 @@ func ruleJsonEscape(p *Prog, r *Report) {
 		if usesBackslash && selfDependent(ph) {
 			found = ph.Comment
 		}
+	}
+	if found == "" {
+		// the scanner's state may live in a struct that a step method updates: a field plays the part of the loop-carried variable
+		loop := naturalLoop(hdr)
+		eachInstr(fn, func(b *ssa.BasicBlock, in ssa.Instruction) {
+			c, ok := in.(*ssa.Call)
+			if !ok || !loop[b] || found != "" {
+				return
+			}
+			h := staticCallee(&c.Call)
+			if h == nil || !p.InModule(h) || len(h.Blocks) == 0 || len(h.Params) == 0 || len(c.Call.Args) == 0 {
+				return
+			}
+			if _, isAlloc := c.Call.Args[0].(*ssa.Alloc); !isAlloc {
+				return
+			}
+			recv := h.Params[0]
+			if _, isPtr := recv.Type().Underlying().(*types.Pointer); !isPtr {
+				return
+			}
+			isFieldLoad := func(v ssa.Value, field int) bool {
+				u, ok := v.(*ssa.UnOp)
+				if !ok || u.Op != token.MUL {
+					return false
+				}
+				fa, ok := u.X.(*ssa.FieldAddr)
+				return ok && fa.X == ssa.Value(recv) && (field < 0 || fa.Field == field)
+			}
+			eachInstr(h, func(b2 *ssa.BasicBlock, i2 ssa.Instruction) {
+				st, ok := i2.(*ssa.Store)
+				if !ok {
+					return
+				}
+				fa, ok := st.Addr.(*ssa.FieldAddr)
+				if !ok || fa.X != ssa.Value(recv) {
+					return
+				}
+				infl := p.influence(h, true, st.Val)
+				self, bs := false, false
+				for v := range infl.values {
+					if isFieldLoad(v, fa.Field) {
+						self = true
+					}
+					if bo, ok := v.(*ssa.BinOp); ok && (isBackslash(bo.X) || isBackslash(bo.Y)) {
+						other := bo.X
+						if isBackslash(bo.X) {
+							other = bo.Y
+						}
+						if !isFieldLoad(other, -1) {
+							bs = true
+						}
+					}
+				}
+				if self && bs {
+					found = fieldName(fa.X.Type(), fa.Field) + " (field of the scanner state updated by " + p.Name(h) + ")"
+				}
+			})
+		})
 	}
 	if found != "" {
 		r.OK(rule, n, "escape state of the string scanner", p.Pos(fn.Pos()), "variable "+found+" is updated from its own current value and from a test of the current byte against the backslash: the parity of a run of backslashes is tracked")
